@@ -533,7 +533,10 @@ func runHistory(name string, s *session, h *hookState) verdictT {
 		if !s.gates.Wait("started:g1", 30*time.Second) {
 			return verdictT{class: "inconclusive"}
 		}
-		time.Sleep(2 * time.Millisecond)
+		// the step stays pending for longer than any planned delay: a call that the plan holds back between two of
+		// its statements wakes up while the other call's run is still open (if the run were over by then, the two
+		// calls would simply have run one after the other)
+		time.Sleep(15 * time.Millisecond)
 		s.gates.Open("gate-g1")
 		if v := wait(c1); v.class != "" {
 			return v
